@@ -255,7 +255,7 @@ pub fn run(ctx: &Ctx) -> Rep {
         }
         // call-history probe: the seven-card value taken right after ranking a suit-swapped twin (same ranks,
         // same suit histogram) must still be the minimum of its six-card values
-        if drive::max_suit_count(c) >= 5 && selected(c, seed, 0x99, ctx.pick_hist(1, 2, 1)) {
+        if drive::max_suit_count(c) >= 5 && selected(c, seed, 0x99, ctx.pick(1, 2, 1)) {
             for t in drive::suit_swap_twins(c) {
                 let tw: [u8; 7] = t.try_into().unwrap();
                 let _ = Seven::from(words_of(&tw)).hand_rank_value();
